@@ -214,3 +214,109 @@ func init() {
 		}
 	}
 }
+
+// time.relower (C10): a declaration whose initialiser is kept as syntax (a
+// map[string]parser.Expr field of the lowerer) and lowered again at every USE
+// of the name, without the result being memoised under that name, costs one
+// lowering per use - and since the initialiser may use other such names, a
+// chain c1 = c0 + c0; c2 = c1 + c1; ... costs 2^n lowerings for n lines of
+// source. A function that passes an entry of such a map (looked up with the
+// name) on to a call must also store a result under the same key in a map of
+// lowered values (memoisation); otherwise it is reported.
+func (c *Ctx) runRelower(r *Report, rule string) {
+	n := 0
+	for _, fn := range c.allFuncs() {
+		if fn.Pkg.Rel != "wgsl/internal/lower" {
+			continue
+		}
+		info := fn.Pkg.Info
+		isASTMap := func(t types.Type) bool {
+			mt, ok := t.Underlying().(*types.Map)
+			if !ok {
+				return false
+			}
+			if b, ok := mt.Key().Underlying().(*types.Basic); !ok || b.Kind() != types.String {
+				return false
+			}
+			nt := namedOf(mt.Elem())
+			return nt != nil && nt.Obj().Name() == "Expr" && nt.Obj().Pkg() != nil && relPkg(nt.Obj().Pkg().Path()) == "wgsl/internal/parser"
+		}
+		// variables bound to an entry of an AST map: v, ok := l.M[key]
+		type bind struct {
+			field, key string
+			pos        token.Pos
+		}
+		binds := map[types.Object]bind{}
+		ast.Inspect(fn.Decl.Body, func(m ast.Node) bool {
+			as, ok := m.(*ast.AssignStmt)
+			if !ok || len(as.Rhs) != 1 || as.Tok != token.DEFINE {
+				return true
+			}
+			ix, ok := ast.Unparen(as.Rhs[0]).(*ast.IndexExpr)
+			if !ok {
+				return true
+			}
+			se, ok := ast.Unparen(ix.X).(*ast.SelectorExpr)
+			if !ok {
+				return true
+			}
+			sel := info.Selections[se]
+			if sel == nil || sel.Kind() != types.FieldVal || !isASTMap(sel.Type()) {
+				return true
+			}
+			if id, ok := as.Lhs[0].(*ast.Ident); ok && info.Defs[id] != nil {
+				binds[info.Defs[id]] = bind{se.Sel.Name, types.ExprString(ix.Index), as.Pos()}
+			}
+			return true
+		})
+		if len(binds) == 0 {
+			continue
+		}
+		// memo stores: l.X[key] = ... where X holds lowered values
+		memo := map[string]bool{}
+		ast.Inspect(fn.Decl.Body, func(m ast.Node) bool {
+			as, ok := m.(*ast.AssignStmt)
+			if !ok {
+				return true
+			}
+			for _, l := range as.Lhs {
+				if ix, ok := ast.Unparen(l).(*ast.IndexExpr); ok {
+					if tv, ok := info.Types[ix.X]; ok {
+						if mt, ok := tv.Type.Underlying().(*types.Map); ok && !isASTMap(tv.Type) {
+							switch irTypeName(mt.Elem()) {
+							case "ExpressionHandle", "LiteralValue", "ScalarValue":
+								memo[types.ExprString(ix.Index)] = true
+							}
+						}
+					}
+				}
+			}
+			return true
+		})
+		ast.Inspect(fn.Decl.Body, func(m ast.Node) bool {
+			call, ok := m.(*ast.CallExpr)
+			if !ok {
+				return true
+			}
+			for _, a := range call.Args {
+				id, ok := ast.Unparen(a).(*ast.Ident)
+				if !ok {
+					continue
+				}
+				b, ok := binds[info.Uses[id]]
+				if !ok {
+					continue
+				}
+				n++
+				cons := fn.id() + ":" + b.field + "->" + calleeDesc(info, call)
+				if memo[b.key] {
+					r.ok(rule, cons, c.pos(call.Pos()), "")
+				} else {
+					r.viol(rule, cons, c.pos(call.Pos()), fn.id()+" lowers the stored initialiser "+b.field+"["+b.key+"] again at every use of the name and memoises nothing: a chain of n such declarations that each use the previous one twice costs 2^n lowerings")
+				}
+			}
+			return true
+		})
+	}
+	r.inst("time.relower", n)
+}
